@@ -1,4 +1,4 @@
 SPECIFICATION Spec
-CONSTANTS S = 4  T = 3  K = 4
+CONSTANTS S = 4  T = 4  K = 4
 INVARIANTS UniversalProperty CategoryLaws TwistLaws
 CHECK_DEADLOCK FALSE
